@@ -250,6 +250,10 @@ static void handle_line(int nf, char **f) {
         char *at = strstr(b.p, "@PID@");
         if (at) snprintf(nm, sizeof nm, "%.*s%s%s", (int)(at - b.p), b.p, pid, at + 5); else snprintf(nm, sizeof nm, "%s", b.p);
         prctl(PR_SET_NAME, nm, 0, 0, 0);
+    } else if (!strcmp(f[0], "symlink") && nf >= 3) {
+        /* symlink <target> <linkpath>: the configured log path's last component may be a symbolic link (logrotate / relocated log directories) */
+        char *tg = subst(f[1], strlen(f[1]), NULL), *ln = subst(f[2], strlen(f[2]), NULL);
+        unlink(ln); if (symlink(tg, ln)) recf("note\tsymlink-failed\n");
     } else if (!strcmp(f[0], "ruid") && nf >= 2) {
         /* real uid <n>, effective and saved uid unchanged (the state of a set-uid-root program started by user <n>) */
         if (setresuid((uid_t) atol(f[1]), (uid_t) -1, (uid_t) -1)) recf("note\truid-failed\n");
